@@ -253,6 +253,7 @@ func funcTexts(name, src string) (map[string][]string, error) {
 			key = tb.String() + "." + key
 		}
 		fd.Doc = nil
+		fd = canonFunc(fd)
 		var b bytes.Buffer
 		if err := printer.Fprint(&b, token.NewFileSet(), fd); err != nil {
 			return nil, err
